@@ -6,7 +6,9 @@
    "any S": every Scalar record (hence IEEE floats incl. NaN); "ring": every commutative
    ring; "ordered field": hypotheses listed in Section OrderedField; closed at Qc.
    Dense semantics: mget A i j = sum of the stored entries (i,j) (duplicates add up).
-   Section 6 (end of file): block values (non-commutative ring, BlockMatOpsProofs.v) and complex values. *)
+   Section 6: block values (non-commutative ring, BlockMatOpsProofs.v) and complex values.
+   Section 7 (end of file): the two spectral-radius clauses (power method <= largest singular value; Gershgorin bound
+   for block values), SpecRad*.v. *)
 From Coq Require Import Sorting.Sorted Sorting.Permutation QArith_base Qcanon.
 Local Close Scope Qc_scope.
 Local Close Scope Q_scope.
@@ -312,12 +314,11 @@ Proof.
 Qed.
 End OrderedField.
 
-(* FULL STATEMENT (unproved): power method.  For every start vector b0 with b0 <> 0 and every
-   iters >= 1, spectral_radius_power scale A iters b0 <= sigma_max(A) (resp. of D^-1 A), the
-   largest singular value: by Cauchy-Schwarz sum_i |s_i b_i| <= ||A b|| ||b|| <= sigma_max for the
-   normalised iterate b.  Needs a true square root (the R instance; in QcS ssqrt is the 2^-64
-   floor root, so the iterate is only approximately normalised).  Tested only: the model
-   MatOps2.spectral_radius_power is compared digit for digit with the implementation. *)
+(* Power method: the full statement ("the estimate never exceeds the largest singular value", every iteration
+   count, every start vector, both variants) is PROVED in section 7a below (C08_power_method_bound in squared form
+   for every ordered field, C08_power_method_le_sigma_R at the reals with the true square root).  In QcS ssqrt is
+   the 2^-64 floor root, so the iterate is only approximately normalised: C08_power_method_bound_any_root is what
+   holds there, and what the exact oracle of the tie checks. *)
 (* proved part (any S): one sweep of the unscaled iteration forms b1 = A b0, accumulates
    ||b1||^2 as sum_i |s_i s_i| and returns the estimate sum_i |s_i b0_i|, s = A b0 *)
 Theorem C08_power_iteration_partial (S : Scalar) (A : crs S) (b0 : vec S) :
@@ -626,3 +627,346 @@ Example C08_block_operand_order_matters :
   seqb (mget (spgemm_saad A B false) 0 0) (a * c) = true /\ seqb (a * c) (c * a) = false /\
   seqb (mget (transpose A) 0 0) c = true.
 Proof. vm_compute. repeat split; reflexivity. Qed.
+
+(* ================================================================== *)
+(* 7. The two spectral-radius clauses of the property, at full strength.
+   "ordered field": the record's operator< is a strict total order compatible with + and with * by positive
+   elements, sabs is non-negative with sabs x * sabs x = x * x, field laws -- NOTHING about ssqrt: a theorem that
+   meets a square root names the values it must be good at.   Proofs: SpecRadOrd.v (Cauchy-Schwarz in squared
+   form, by Lagrange's identity), SpecRadPower.v, SpecRadBlock.v; closed at Qc (SpecRadQc.v) and at the reals with
+   the true square root (SpecRadR.v; there every root hypothesis holds and the axioms of Reals are listed). *)
+From Coq Require Import Reals.
+From Amgcl Require Import SpecRadOrd SpecRadPower SpecRadBlock SpecRadSpec SpecRadQc SpecRadGrid SpecRadR.
+
+Section SpectralRadius.
+Variable S : Scalar.
+Hypothesis lt_irrefl : forall x : S, sltb x x = false.
+Hypothesis lt_trans  : forall x y z : S, sltb x y = true -> sltb y z = true -> sltb x z = true.
+Hypothesis lt_total  : forall x y : S, sltb x y = false -> sltb y x = false -> x = y.
+Hypothesis Srt : Sring S.
+Hypothesis lt_add : forall x y z : S, sltb x y = true -> sltb (x + z) (y + z) = true.
+Hypothesis lt_mul : forall x y z : S, sltb s0 z = true -> sltb x y = true -> sltb (x * z) (y * z) = true.
+Hypothesis abs_nonneg : forall x : S, sltb (sabs x) s0 = false.
+Hypothesis abs_sqr : forall x : S, sabs x * sabs x = x * x.
+Hypothesis Sft : Sfield S.
+Local Notation Hof := (mk_ordfield S lt_irrefl lt_trans lt_total Srt lt_add lt_mul abs_nonneg abs_sqr Sft).
+
+(* Cauchy-Schwarz without roots or division: (sum x_i y_i)^2 <= (sum x_i^2)(sum y_i^2) *)
+Theorem C08_cauchy_schwarz (x y : nat -> S) n :
+  sltb (sumn (fun i => x i * x i) n * sumn (fun i => y i * y i) n)
+       (sumn (fun i => x i * y i) n * sumn (fun i => x i * y i) n) = false.
+Proof. exact (cauchy_schwarz Hof x y n). Qed.
+
+(* --- 7a. power method (builtin.hpp spectral_radius, power_iters > 0) --- *)
+
+(* one sweep, both variants, as the code computes it: b1 = T b0 (T = pm_op: A, or row i of A times the inverse of
+   the thread-private [dia]), b1_norm = |b1|^2, radius = sum_i |b1_i * b0_i|  -- absolute values term by term *)
+Theorem C08_power_sweep (scale : bool) (A : crs S) (b0 : vec S) :
+  pm_iter scale A b0 =
+  (vsq (pm_op scale A b0), sumn (fun i => sabs (vget (pm_op scale A b0) i * vget b0 i)) (nrows A), pm_op scale A b0) /\
+  length (pm_op scale A b0) = nrows A.
+Proof.
+  exact (conj (proj1 (pm_iter_sums Hof scale A b0)) (proj2 (proj2 (pm_iter_sums Hof scale A b0)))).
+Qed.
+
+(* the operator, densely: (T x)_i = c_i (A x)_i with c_i = 1, resp. the inverse of [dia] at row i; when every row
+   stores a diagonal entry [dia] at row i is the last stored diagonal entry of row i: T = D^-1 A *)
+Theorem C08_power_operator_dense (scale : bool) (A : crs S) (x : vec S) i : wf A = true -> i < nrows A ->
+  vget (pm_op scale A x) i = pm_coef scale A i * Ax A x i /\
+  (Gersh.has_last_diag A = true -> pm_dia A i = Gersh.last_diag A i).
+Proof.
+  intros Hwf Hi. exact (conj (pm_op_get Hof scale A x i Hwf Hi) (fun Hd => pm_dia_last_diag A i Hd Hi)).
+Qed.
+
+(* one sweep: 0 <= radius and radius^2 <= M |b0|^4 for every M with |T x|^2 <= M |x|^2 (Cauchy-Schwarz) *)
+Theorem C08_power_sweep_bound (scale : bool) (A : crs S) (M : S) (b0 : vec S) nrm rad b1 :
+  (forall x : vec S, length x = nrows A -> sltb (M * vsq x) (vsq (pm_op scale A x)) = false) ->
+  length b0 = nrows A -> pm_iter scale A b0 = (nrm, rad, b1) ->
+  sltb rad s0 = false /\ sltb (M * (vsq b0 * vsq b0)) (rad * rad) = false.
+Proof. exact (pm_iter_bound Hof scale A M b0 nrm rad b1). Qed.
+
+(* THE CLAUSE (squared form): for every iteration count and every start vector the returned estimate r satisfies
+   0 <= r and r^2 <= M, for every M >= 0 bounding the squared singular values of T (|T x|^2 <= M |x|^2 for all x),
+   provided the root is not UNDER-estimated at the norms the run meets (x <= ssqrt x * ssqrt x for x in
+   power_norms = |start|^2 and b1_norm of every sweep but the last; an exact root qualifies).
+   (iters = 0 is the Gershgorin branch in the C++; the model then returns 0.) *)
+Theorem C08_power_method_bound (scale : bool) (A : crs S) (M : S) (iters : nat) (start : vec S) :
+  sltb M s0 = false ->
+  (forall x : vec S, length x = nrows A -> sltb (M * vsq x) (vsq (pm_op scale A x)) = false) ->
+  length start = nrows A ->
+  Forall (fun x => sltb (ssqrt x * ssqrt x) x = false) (power_norms scale A iters start) ->
+  let r := spectral_radius_power scale A iters start in
+  sltb r s0 = false /\ sltb M (r * r) = false.
+Proof. exact (power_bound Hof scale A M iters start). Qed.
+
+(* the same with the operator written densely (scaled: every row stores a diagonal entry, D = the last ones) *)
+Theorem C08_power_method_bound_dense (scale : bool) (A : crs S) (M : S) (iters : nat) (start : vec S) :
+  wf A = true -> (scale = true -> Gersh.has_last_diag A = true) -> sltb M s0 = false ->
+  (forall x : vec S, length x = nrows A ->
+     sltb (M * vsq x) (sumn (fun i => DinvA scale A x i * DinvA scale A x i) (nrows A)) = false) ->
+  length start = nrows A ->
+  Forall (fun x => sltb (ssqrt x * ssqrt x) x = false) (power_norms scale A iters start) ->
+  let r := spectral_radius_power scale A iters start in
+  sltb r s0 = false /\ sltb M (r * r) = false.
+Proof. exact (power_bound_dense Hof scale A M iters start). Qed.
+
+(* with NO hypothesis on ssqrt: r^2 <= M t^2, t = |last (approximately normalised) iterate|^2 *)
+Theorem C08_power_method_bound_any_root (scale : bool) (A : crs S) (M : S) (iters : nat) (start : vec S) :
+  (forall x : vec S, length x = nrows A -> sltb (M * vsq x) (vsq (pm_op scale A x)) = false) ->
+  0 < iters -> length start = nrows A ->
+  let r := spectral_radius_power scale A iters start in
+  let t := vsq (power_last scale A iters start) in
+  sltb r s0 = false /\ sltb (M * (t * t)) (r * r) = false.
+Proof. exact (power_bound_always Hof scale A M iters start). Qed.
+
+(* a concrete M: the dense Frobenius norm (scaled: row i weighted by c_i^2); rows may be unsorted / store a column twice *)
+Theorem C08_power_frobenius_operator_bound (scale : bool) (A : crs S) (x : vec S) :
+  wf A = true -> nrows A = ncols A -> length x = nrows A ->
+  sltb (frob2 scale A * vsq x) (vsq (pm_op scale A x)) = false.
+Proof. intros Hwf Hsq. exact (op_bound_frob Hof scale A Hwf Hsq x). Qed.
+
+Theorem C08_power_method_le_frobenius (scale : bool) (A : crs S) (iters : nat) (start : vec S) :
+  wf A = true -> nrows A = ncols A -> length start = nrows A ->
+  Forall (fun x => sltb (ssqrt x * ssqrt x) x = false) (power_norms scale A iters start) ->
+  let r := spectral_radius_power scale A iters start in
+  sltb r s0 = false /\ sltb (frob2 scale A) (r * r) = false.
+Proof. exact (power_le_frobenius Hof scale A iters start). Qed.
+
+(* the exact-arithmetic oracle of the tie (r^2 <= ||A||_F^2 t^2, 0 <= r) accepts the model's value for ANY ssqrt *)
+Theorem C08_power_oracle_accepts_model (scale : bool) (A : crs S) (iters : nat) (start : vec S) :
+  wf A = true -> nrows A = ncols A -> 0 < iters -> length start = nrows A ->
+  power_oracle scale A iters start (spectral_radius_power scale A iters start) = true.
+Proof. exact (power_oracle_sound Hof scale A iters start). Qed.
+
+(* --- 7b. Gershgorin with Frobenius block norms (value_type = static_matrix<S,b,b>) --- *)
+Variable b : nat.
+Hypothesis Hb : 0 < b.
+Hypothesis adj_id : forall x : S, sadj x = x.        (* real base scalars *)
+
+(* the Frobenius inner product <x,y> = sum_kl x_kl y_kl of blocks: Cauchy-Schwarz and sub-multiplicativity, and
+   math::norm of a block is the root of <a,a> *)
+Theorem C08_block_frobenius (a x y : BlockS S b) (c : S) :
+  sltb (bip S b x x * bip S b y y) (bip S b x y * bip S b x y) = false /\
+  sltb (bip S b a a * bip S b x x) (bip S b (a * x) (a * x)) = false /\
+  bip S b ((blk_embed S b c : BlockS S b) * x) ((blk_embed S b c : BlockS S b) * x) = c * c * bip S b x x /\
+  bnrm S b a = ssqrt (bip S b a a) /\ (sabs a : BlockS S b) = blk_embed S b (bnrm S b a).
+Proof.
+  exact (conj (bip_cs S b Hb Hof x y) (conj (bip_submult S b Hof a x) (conj (bip_emb S b Hof c x)
+        (conj (bnrm_sqrt S b Hb Hof adj_id a) eq_refl)))).
+Qed.
+
+(* what spectral_radius<scale>(A, 0) returns at block values, for every thread chunking: the embedded base scalar
+   max(0, max_i sum_j ||A_ij||) (scaled: times ||inverse(D_i)||, D_i the last stored diagonal block, identity if none) *)
+Theorem C08_block_gershgorin_value (scale : bool) (lens : list nat) (A : crs (BlockS S b)) :
+  nrows A <= fold_right Nat.add 0 lens ->
+  spectral_radius_gersh scale lens A = blk_embed S b (bgersh_spec S (BlockS S b) (bnrm S b) scale A).
+Proof. exact (block_gersh_value S b Hb Hof scale lens A). Qed.
+
+(* THE CLAUSE for block values: a block eigenpair sum_j A_ij v_j = lam v_i (v_i blocks, e.g. b x 1 columns embedded
+   by blk_col; lam a base scalar), v <> 0, has |lam| <= the estimate -- provided the root is non-negative and not
+   under-estimated at <a,a> for the stored blocks a (blocks_sqrt_ok) *)
+Theorem C08_block_gershgorin_bound (A : crs (BlockS S b)) (v : vec (BlockS S b)) (lam : S) :
+  wf A = true -> nrows A = ncols A ->
+  (forall r e, In r (rows A) -> In e r ->
+     sltb (ssqrt (bip S b (snd e) (snd e))) s0 = false /\
+     sltb (ssqrt (bip S b (snd e) (snd e)) * ssqrt (bip S b (snd e) (snd e))) (bip S b (snd e) (snd e)) = false) ->
+  (forall i, i < nrows A -> Ax A v i = (blk_embed S b lam : BlockS S b) * vget v i) ->
+  (exists i, i < nrows A /\ vget v i <> s0) ->
+  sltb (bgersh_spec S (BlockS S b) (bnrm S b) false A) (sabs lam) = false.
+Proof. exact (block_gersh_bound S b Hb Hof adj_id A v lam). Qed.
+
+(* scaled: eigenpairs of D^-1 A, inverse(D_i) D_i = I, the root also good at <inverse(D_i), inverse(D_i)> *)
+Theorem C08_block_gershgorin_bound_scaled (A : crs (BlockS S b)) (v : vec (BlockS S b)) (lam : S) :
+  wf A = true -> nrows A = ncols A -> blocks_sqrt_ok S b A ->
+  (forall i, i < nrows A -> sinv (Gersh.last_diag A i) * Gersh.last_diag A i = s1 /\
+                            sqrt_ok2 S (bip S b (sinv (Gersh.last_diag A i)) (sinv (Gersh.last_diag A i)))) ->
+  (forall i, i < nrows A -> Ax A v i = Gersh.last_diag A i * ((blk_embed S b lam : BlockS S b) * vget v i)) ->
+  (exists i, i < nrows A /\ vget v i <> s0) ->
+  sltb (bgersh_spec S (BlockS S b) (bnrm S b) true A) (sabs lam) = false.
+Proof. exact (block_gersh_bound_scaled S b Hb Hof adj_id A v lam). Qed.
+End SpectralRadius.
+Print Assumptions C08_cauchy_schwarz.
+Print Assumptions C08_power_sweep.
+Print Assumptions C08_power_operator_dense.
+Print Assumptions C08_power_sweep_bound.
+Print Assumptions C08_power_method_bound.
+Print Assumptions C08_power_method_bound_dense.
+Print Assumptions C08_power_method_bound_any_root.
+Print Assumptions C08_power_frobenius_operator_bound.
+Print Assumptions C08_power_method_le_frobenius.
+Print Assumptions C08_power_oracle_accepts_model.
+Print Assumptions C08_block_frobenius.
+Print Assumptions C08_block_gershgorin_value.
+Print Assumptions C08_block_gershgorin_bound.
+Print Assumptions C08_block_gershgorin_bound_scaled.
+
+(* the abstract form behind 7b: any non-commutative ring B with a symmetric bilinear positive inner product into an
+   ordered field that satisfies Cauchy-Schwarz, is sub-multiplicative and scales with embedded base scalars;
+   n = nrm a only has to satisfy 0 <= n and <a,a> <= n^2 on the stored entries *)
+Theorem C08_normed_gershgorin_bound (S0 B : Scalar) (Hof : ordfield_theory S0) (Hnc : ncring_theory B)
+  (ip : B -> B -> S0) (emb : S0 -> B) (nrm : B -> S0)
+  (ip_add_l : forall x y z : B, ip (x + y) z = ip x z + ip y z) (ip_sym : forall x y : B, ip x y = ip y x)
+  (ip_nonneg : forall x : B, sle s0 (ip x x)) (ip_zero : forall x : B, ip x x = s0 -> x = s0)
+  (ip_cs : forall x y : B, sle (ip x y * ip x y) (ip x x * ip y y))
+  (ip_submult : forall a x : B, sle (ip (a * x) (a * x)) (ip a a * ip x x))
+  (ip_emb : forall (c : S0) (x : B), ip (emb c * x) (emb c * x) = c * c * ip x x)
+  (A : crs B) (v : vec B) (lam : S0) :
+  wf A = true -> nrows A = ncols A -> stored_ok S0 B ip nrm A ->
+  (forall i, i < nrows A -> Ax A v i = emb lam * vget v i) ->
+  (exists i, i < nrows A /\ vget v i <> s0) ->
+  sle (sabs lam) (bgersh_spec S0 B nrm false A).
+Proof. exact (bgersh_bound S0 B Hof Hnc ip emb nrm ip_add_l ip_sym ip_nonneg ip_zero ip_cs ip_submult ip_emb A v lam). Qed.
+Print Assumptions C08_normed_gershgorin_bound.
+
+(* --- closed instances at the exact rationals --- *)
+Theorem C08_power_method_bound_Qc (scale : bool) (A : crs QcS) (M : QcS) (iters : nat) (start : vec QcS) :
+  sle s0 M -> op_bound scale A M -> length start = nrows A ->
+  Forall sqrt_ok (power_norms scale A iters start) ->
+  let r := spectral_radius_power scale A iters start in sle s0 r /\ sle (r * r) M.
+Proof. exact (power_bound_Qc scale A M iters start). Qed.
+Print Assumptions C08_power_method_bound_Qc.
+
+Theorem C08_power_oracle_accepts_model_Qc (scale : bool) (A : crs QcS) (iters : nat) (start : vec QcS) :
+  wf A = true -> nrows A = ncols A -> 0 < iters -> length start = nrows A ->
+  power_oracle scale A iters start (spectral_radius_power scale A iters start) = true.
+Proof. exact (power_oracle_sound_Qc scale A iters start). Qed.
+Print Assumptions C08_power_oracle_accepts_model_Qc.
+
+(* the eigenpair oracles of the tie: a generated pair that passes the boolean eigenpair check is bounded by the
+   specification value (= the model's value by C08_gershgorin_value(_scaled), = the implementation's by the tie) *)
+Theorem C08_gershgorin_eigenpair_oracle_Qc (A : crs QcS) (v : vec QcS) (lam : QcS) :
+  wf A = true -> nrows A = ncols A ->
+  (eig_check A v lam = true -> bound_check (gersh_spec false A) lam = true) /\
+  (eig_check_scaled A v lam = true -> bound_check (gersh_spec true A) lam = true).
+Proof.
+  intros Hwf Hsq. exact (conj (gersh_eig_oracle_Qc A v lam Hwf Hsq) (gersh_eig_oracle_scaled_Qc A v lam Hwf Hsq)).
+Qed.
+Print Assumptions C08_gershgorin_eigenpair_oracle_Qc.
+
+(* the boolean block eigenpair checks decide the hypotheses of C08_block_gershgorin_bound(_scaled) *)
+Theorem C08_block_eigenpair_check_sound (bs : nat) (A : crs (BlockS QcS bs)) (v : vec (BlockS QcS bs)) (lam : QcS) :
+  (beig_check QcS (BlockS QcS bs) (blk_embed QcS bs) A v lam = true ->
+     (forall i, i < nrows A -> Ax A v i = (blk_embed QcS bs lam : BlockS QcS bs) * vget v i) /\
+     (exists i, i < nrows A /\ vget v i <> s0)) /\
+  (beig_check_scaled QcS (BlockS QcS bs) (blk_embed QcS bs) A v lam = true ->
+     (forall i, i < nrows A -> sinv (Gersh.last_diag A i) * Gersh.last_diag A i = s1) /\
+     (forall i, i < nrows A -> Ax A v i = Gersh.last_diag A i * ((blk_embed QcS bs lam : BlockS QcS bs) * vget v i)) /\
+     (exists i, i < nrows A /\ vget v i <> s0)).
+Proof.
+  exact (conj (beig_check_sound QcS (BlockS QcS bs) (blk_embed QcS bs) (BlockS_eqb QcS bs QcS_eqb) A v lam)
+              (beig_check_scaled_sound QcS (BlockS QcS bs) (blk_embed QcS bs) (BlockS_eqb QcS bs QcS_eqb) A v lam)).
+Qed.
+Print Assumptions C08_block_eigenpair_check_sound.
+
+Theorem C08_block_gershgorin_bound_Qc (bs : nat) (A : crs (BlockS QcS bs)) (v : vec (BlockS QcS bs)) (lam : QcS) :
+  0 < bs -> wf A = true -> nrows A = ncols A -> blocks_sqrt_ok QcS bs A ->
+  (forall i, i < nrows A -> Ax A v i = (blk_embed QcS bs lam : BlockS QcS bs) * vget v i) ->
+  (exists i, i < nrows A /\ vget v i <> s0) ->
+  forall lens, nrows A <= fold_right Nat.add 0 lens ->
+  exists g : QcS, spectral_radius_gersh false lens A = blk_embed QcS bs g /\ sle (sabs lam) g.
+Proof.
+  intros Hb Hwf Hsq Hok Heig Hnz lens Hl. exists (bgersh_spec QcS (BlockS QcS bs) (bnrm QcS bs) false A).
+  exact (conj (block_gersh_value_Qc' bs Hb false lens A Hl) (block_gersh_bound_Qc bs Hb A v lam Hwf Hsq Hok Heig Hnz)).
+Qed.
+Print Assumptions C08_block_gershgorin_bound_Qc.
+
+(* QcS without ANY hypothesis about roots: the pseudo root (floor root on the 2^-64 grid, shared with vq::Q) is
+   non-negative and below the true root by less than 2^-64, so the bound holds for the estimate computed with
+   ||a|| + 2^-64 in place of the pseudo norm ||a|| (bnrm_up) -- the inequality the oracle sr.o.bgeig checks *)
+Theorem C08_qc_sqrt_grid (x : Qc) : Qcle (Q2Qc 0) x ->
+  Qcle (Q2Qc 0) (qc_sqrt x) /\ Qcle x (Qcmult (Qcplus (qc_sqrt x) eps64) (Qcplus (qc_sqrt x) eps64)).
+Proof. intro H. exact (conj (qc_sqrt_nonneg x) (qc_sqrt_grid x H)). Qed.
+Print Assumptions C08_qc_sqrt_grid.
+
+Theorem C08_block_gershgorin_bound_grid_Qc (bs : nat) (A : crs (BlockS QcS bs)) (v : vec (BlockS QcS bs)) (lam : QcS) :
+  0 < bs -> wf A = true -> nrows A = ncols A ->
+  ((forall i, i < nrows A -> Ax A v i = (blk_embed QcS bs lam : BlockS QcS bs) * vget v i) ->
+   (exists i, i < nrows A /\ vget v i <> s0) ->
+   sle (sabs lam) (bgersh_spec QcS (BlockS QcS bs) (bnrm_up bs) false A)) /\
+  ((forall i, i < nrows A -> sinv (Gersh.last_diag A i) * Gersh.last_diag A i = s1) ->
+   (forall i, i < nrows A -> Ax A v i = Gersh.last_diag A i * ((blk_embed QcS bs lam : BlockS QcS bs) * vget v i)) ->
+   (exists i, i < nrows A /\ vget v i <> s0) ->
+   sle (sabs lam) (bgersh_spec QcS (BlockS QcS bs) (bnrm_up bs) true A)).
+Proof.
+  intros Hb Hwf Hsq.
+  exact (conj (block_gersh_bound_grid_Qc bs Hb A v lam Hwf Hsq) (block_gersh_bound_grid_scaled_Qc bs Hb A v lam Hwf Hsq)).
+Qed.
+Print Assumptions C08_block_gershgorin_bound_grid_Qc.
+
+(* --- closed at the real numbers: the statements of the property, with the true square root --- *)
+(* "the power-method estimate never exceeds the largest singular value": 0 <= r <= sqrt M for every M >= 0 with
+   |T x|^2 <= M |x|^2 for all x; every iteration count, every start vector, both variants *)
+Theorem C08_power_method_le_sigma_R (scale : bool) (A : crs RS) (M : R) (iters : nat) (start : vec RS) :
+  (0 <= M)%R -> (forall x : vec RS, length x = nrows A -> (vsq (pm_op scale A x) <= M * vsq x)%R) ->
+  length start = nrows A ->
+  (0 <= spectral_radius_power scale A iters start <= sqrt M)%R.
+Proof. exact (power_le_sigma_R scale A M iters start). Qed.
+Print Assumptions C08_power_method_le_sigma_R.
+
+Theorem C08_power_method_le_sigma_dense_R (scale : bool) (A : crs RS) (M : R) (iters : nat) (start : vec RS) :
+  wf A = true -> (scale = true -> Gersh.has_last_diag A = true) -> (0 <= M)%R ->
+  (forall x : vec RS, length x = nrows A ->
+     (sumn (fun i => (DinvA scale A x i * DinvA scale A x i)%S) (nrows A) <= M * vsq x)%R) ->
+  length start = nrows A ->
+  (0 <= spectral_radius_power scale A iters start <= sqrt M)%R.
+Proof. exact (power_le_sigma_dense_R scale A M iters start). Qed.
+Print Assumptions C08_power_method_le_sigma_dense_R.
+
+Theorem C08_power_method_le_frobenius_R (scale : bool) (A : crs RS) (iters : nat) (start : vec RS) :
+  wf A = true -> nrows A = ncols A -> length start = nrows A ->
+  (0 <= spectral_radius_power scale A iters start <= sqrt (frob2 scale A))%R.
+Proof. exact (power_le_frobenius_R scale A iters start). Qed.
+Print Assumptions C08_power_method_le_frobenius_R.
+
+(* "the Gershgorin estimate is an upper bound of the true spectral radius", block values, Frobenius norms *)
+Theorem C08_block_gershgorin_bound_R (bs : nat) (A : crs (BlockS RS bs)) (v : vec (BlockS RS bs)) (lam : R) :
+  0 < bs -> wf A = true -> nrows A = ncols A ->
+  (forall i, i < nrows A -> Ax A v i = (blk_embed RS bs lam : BlockS RS bs) * vget v i) ->
+  (exists i, i < nrows A /\ vget v i <> s0) ->
+  forall lens, nrows A <= fold_right Nat.add 0 lens ->
+  exists g : R, spectral_radius_gersh false lens A = blk_embed RS bs g /\ (Rabs lam <= g)%R.
+Proof.
+  intros Hb Hwf Hsq Heig Hnz lens Hl. exists (bgersh_spec RS (BlockS RS bs) (bnrm RS bs) false A).
+  exact (conj (block_gersh_value_R bs Hb false lens A Hl) (block_gersh_bound_R bs Hb A v lam Hwf Hsq Heig Hnz)).
+Qed.
+Print Assumptions C08_block_gershgorin_bound_R.
+
+Theorem C08_block_gershgorin_bound_scaled_R (bs : nat) (A : crs (BlockS RS bs)) (v : vec (BlockS RS bs)) (lam : R) :
+  0 < bs -> wf A = true -> nrows A = ncols A ->
+  (forall i, i < nrows A -> sinv (Gersh.last_diag A i) * Gersh.last_diag A i = s1) ->
+  (forall i, i < nrows A -> Ax A v i = Gersh.last_diag A i * ((blk_embed RS bs lam : BlockS RS bs) * vget v i)) ->
+  (exists i, i < nrows A /\ vget v i <> s0) ->
+  forall lens, nrows A <= fold_right Nat.add 0 lens ->
+  exists g : R, spectral_radius_gersh true lens A = blk_embed RS bs g /\ (Rabs lam <= g)%R.
+Proof.
+  intros Hb Hwf Hsq Hd Heig Hnz lens Hl. exists (bgersh_spec RS (BlockS RS bs) (bnrm RS bs) true A).
+  exact (conj (block_gersh_value_R bs Hb true lens A Hl) (block_gersh_bound_scaled_R bs Hb A v lam Hwf Hsq Hd Heig Hnz)).
+Qed.
+Print Assumptions C08_block_gershgorin_bound_scaled_R.
+
+(* --- non-vacuity: all hypotheses, including the ones on square roots, hold in QcS on perfect dyadic squares --- *)
+(* A = 5 x reflection: start (3,4), three sweeps, norms met 25, 25, 25; estimate 3 <= 5 = largest singular value *)
+Example C08_power_example :
+  (wf exP = true /\ nrows exP = ncols exP /\ length exStart = nrows exP /\
+   Forall sqrt_ok (power_norms false exP 3 exStart) /\
+   map this (power_norms false exP 3 exStart) = [(25#1)%Q; (25#1)%Q; (25#1)%Q] /\
+   spectral_radius_power false exP 3 exStart = qc 3 1 /\ frob2 false exP = qc 50 1) /\
+  (op_bound false exP (qc 25 1) /\
+   (let r := spectral_radius_power false exP 3 exStart in sle s0 r /\ sle (r * r) (qc 25 1))).
+Proof. exact (conj power_example_unscaled power_example_sigma). Qed.
+
+(* scaled: D = diag(4,8), D^-1 A = 5/4 x rotation; norms met 25, 25/16, 25/16 *)
+Example C08_power_example_scaled :
+  wf exPs = true /\ nrows exPs = ncols exPs /\ length exStart = nrows exPs /\ Gersh.has_last_diag exPs = true /\
+  Forall sqrt_ok (power_norms true exPs 3 exStart) /\
+  map this (power_norms true exPs 3 exStart) = [(25#1)%Q; (25#16)%Q; (25#16)%Q] /\
+  frob2 true exPs = qc 25 8.
+Proof. exact power_example_scaled. Qed.
+
+(* 2 x 2 blocks with Frobenius norms 5, 10, 5: block eigenpair (3, (col(3,4), 0)), estimate 15 *)
+Example C08_block_gershgorin_example :
+  wf exB = true /\ nrows exB = ncols exB /\ blocks_sqrt_ok QcS 2 exB /\
+  beig_check QcS (BlockS QcS 2) (blk_embed QcS 2) exB exBv (qc 3 1) = true /\
+  bgersh_spec QcS (BlockS QcS 2) (bnrm QcS 2) false exB = qc 15 1 /\
+  sle (sabs (qc 3 1 : QcS)) (bgersh_spec QcS (BlockS QcS 2) (bnrm QcS 2) false exB).
+Proof. exact block_gersh_example. Qed.
